@@ -115,7 +115,13 @@ func (g *gj) text() string {
 	return strings.Join(ws, " ")
 }
 
-func (g *gj) tagName() string { return g.of("date", "tag", "project", "a-b", "x_y", "T1", "k") }
+func (g *gj) tagName() string {
+	if !g.plain && g.coin(20) {
+		// names isValidTagName rejects, or that need trimming
+		return g.of("a.b", "über", "x y", "", " k", "k ", "a/b", "9", "_", "-", "a:b", "день", "t\tab")
+	}
+	return g.of("date", "tag", "project", "a-b", "x_y", "T1", "k")
+}
 
 func (g *gj) comment() string {
 	var parts []string
@@ -424,7 +430,7 @@ func (g *gj) directive() []string {
 		return lines
 	case 4:
 		g.c.Count("g.dir.include")
-		p := g.of("other.journal", "./sub/x.journal", "/abs/path.journal", "~/fin/2024.journal", "*.journal", "sub/**/*.journal", "my file.journal", "файл.journal", "a-b_c.j", "2024.journal", "x.journal ; c")
+		p := g.of("other.journal", "./sub/x.journal", "/abs/path.journal", "~/fin/2024.journal", "*.journal", "sub/**/*.journal", "my file.journal", "файл.journal", "a-b_c.j", "2024.journal", "x.journal ; c", " lead.journal", "trail.journal   ", "trail.journal \t", "two  blanks.journal  ;c", "\ttab.journal", "a.journal;nospace", "\"quoted.journal\"", "$HOME/x", "-dash", "1.5", "a:b")
 		return []string{"include " + p}
 	case 5:
 		g.c.Count("g.dir.P")
